@@ -12,5 +12,7 @@ if os.path.exists(V+"/tools/design7_benign.md"):
     sec+=open(V+"/tools/design7_benign.md").read()
     if os.path.exists(V+"/benign/RESULTS.md"):
         sec+="\n"+open(V+"/benign/RESULTS.md").read().replace("# Behaviour-preserving","#### Behaviour-preserving")
+if os.path.exists(V+"/tools/design7_hunt.md"):
+    sec+=open(V+"/tools/design7_hunt.md").read()
 open(V+"/DESIGN.md","w").write(d+sec)
 print("DESIGN.md section 7 regenerated")
